@@ -9,8 +9,8 @@ import numpy as np
 from harness import gamma
 from harness.gamma import Palette, NA
 
-HOSTILE_U8 = Palette("str/hostile-utf8", "str", ["A b", "a,b;c\td", 'q"uo"te', "multi\nline é€", " lead trail "], na="", full_dtype=str)
-HOSTILE_L1 = Palette("str/hostile-latin1", "str", ["A b", "a,b;c\td", 'q"uo"te', "multi\nline éÿ", " lead trail "], na="", full_dtype=str)
+HOSTILE_U8 = Palette("str/hostile-utf8", "str", ["A b", "a,b;c\td", 'q"uo"te', "multi\nline é€", " lead trail ", "cr\rx\r\ny"], na="", full_dtype=str)
+HOSTILE_L1 = Palette("str/hostile-latin1", "str", ["A b", "a,b;c\td", 'q"uo"te', "multi\nline éÿ", " lead trail ", "cr\rx\r\ny"], na="", full_dtype=str)
 FLOATS = Palette("float/plain", "float", [-1.5, 0.0, 2.5, 1e300], na=float("nan"), full_dtype=float)
 INTS = Palette("int/plain", "int", [-3, 0, 7, 2**53], has_na=False, full_dtype=int)
 TEXTNUM = Palette("str/digits", "str", ["x0", "x1", "x2", "x3"], na="", full_dtype=str)
@@ -29,7 +29,7 @@ CONTENTS = [
     # other column sets than the classes above (a reader must not remember the names of an earlier file);
     # class 5 carries NUL-terminated strings and a fixed-width string column through the binary formats
     {"cols": ["a", "b", "c", "d"], "cell": {"a": [0, 2, 4, 6], "b": [0, 2, -1, 6], "c": [2, -1, 0, 4], "d": [0, 4, -1, 6]}},
-    {"cols": ["e", "a", "b"], "cell": {"e": [2, 0], "a": [0, 2], "b": [4, -1]}},
+    {"cols": ["e", "a", "b"], "cell": {"e": [2, 0], "a": [0, 2], "b": [10, -1]}},      # b holds carriage returns
 ]
 MAGIC = {b"\x1f\x8b": "gz", b"BZh": "bz2", b"\xfd7zXZ\x00": "xz"}
 
